@@ -459,6 +459,13 @@ SetFilter(f) ==
 \* filter that can be evaluated on everything retained (the window and the aged-out entries still shown).
 SetFilterLegal(f) == WellFormed(f) => \A i \in ret : ~Raises(f, arr[i])
 
+\* Environment: after a message was handed to the logger its sender mutates the Message object, or re-uses it
+\* for the next send.  THE LAW: the log holds the message AS LOGGED -- nothing of the state changes, so every later
+\* view (in particular after SetFilter) is computed from the content at log time, for entries that matched and for
+\* entries that did not.  (The replay driver does this after EVERY log call behind the WrappingMessageLogger;
+\* being the identity it is not exported as an edge.)
+Mutate(i) == i \in 1..Len(arr) /\ UNCHANGED vars
+
 SetPaused(b) == paused' = b /\ UNCHANGED <<arr, raw, view, flt, ret, probe>>
 
 Clear == /\ raw' = <<>> /\ view' = <<>> /\ ret' = {}
@@ -468,6 +475,7 @@ NextLog == \/ \E i \in UseEnt : Len(arr) < MaxLog /\ Log(LogEntries[i])
            \/ \E i \in UseFlt : LogFilters[i] # flt /\ SetFilterLegal(LogFilters[i]) /\ SetFilter(LogFilters[i])
            \/ \E b \in BOOLEAN : b # paused /\ SetPaused(b)
            \/ (raw # <<>> \/ view # <<>>) /\ Clear
+           \/ \E i \in 1..Len(arr) : Mutate(i)
 SpecLog == InitLog /\ [][NextLog]_vars
 Bound == TLCGet("level") <= Depth
 
